@@ -16,19 +16,17 @@ for l in open(os.path.join(ROOT, "KNOWN_FINDINGS.txt")):
     kind, pid = m.groups()
     if only and pid not in only:
         continue
-    w = re.search(r"witness[= ](\S+\.json)", l)
-    if not w:
-        continue
-    path = os.path.join(ROOT, w.group(1))
-    if not os.path.exists(path):
-        print("MISSING %s %s %s" % (kind, pid, w.group(1))); bad += 1; continue
-    r = subprocess.run([os.path.join(ROOT, "check"), pid, "--replay", path], cwd=ROOT, stdout=subprocess.PIPE, stderr=subprocess.STDOUT, text=True)
-    want = 1 if kind == "known" else 0
-    ok = r.returncode == want
-    n += 1
-    print("%s %s %s %s -> exit %d" % ("ok " if ok else "BAD", kind, pid, w.group(1), r.returncode), flush=True)
-    if not ok:
-        bad += 1
-        print("    " + "\n    ".join(r.stdout.strip().splitlines()[-3:]))
+    for wpath in re.findall(r"(replays/[^\s,;]+\.json)", l):
+        path = os.path.join(ROOT, wpath)
+        if not os.path.exists(path):
+            print("MISSING %s %s %s" % (kind, pid, wpath)); bad += 1; continue
+        r = subprocess.run([os.path.join(ROOT, "check"), pid, "--replay", path], cwd=ROOT, stdout=subprocess.PIPE, stderr=subprocess.STDOUT, text=True)
+        want = 1 if kind == "known" else 0
+        ok = r.returncode == want
+        n += 1
+        print("%s %s %s %s -> exit %d" % ("ok " if ok else "BAD", kind, pid, wpath, r.returncode), flush=True)
+        if not ok:
+            bad += 1
+            print("    " + "\n    ".join(r.stdout.strip().splitlines()[-3:]))
 print("%d witnesses replayed, %d unexpected" % (n, bad))
 sys.exit(1 if bad else 0)
